@@ -518,17 +518,22 @@ def ss(draw, prof, n):
         comps = [c for c in P["ss_sets"][si] if c not in used]
         if len(comps) < 2:
             continue
-        nonideal = draw(st.integers(0, 1)) == 0
+        nonideal = draw(st.integers(0, 2)) > 0
         if nonideal:
             comps = comps[:2]
         used.update(comps)
         L.append(" SS%d" % j)
+        # two thirds of the solid solutions have every end-member present in a substantial amount (no in/out switching of
+        # the solid solution, a well-defined composition); the rest may start from zero or trace amounts
+        solid = draw(st.integers(0, 2)) > 0
         for c in comps:
-            L.append("  -comp %s %s" % (c, fmt(draw(st.one_of(st.just(0.0), cg.logu(1e-5, 0.1, 3))))))
+            amt = cg.logu(1e-3, 0.1, 3) if solid else st.one_of(st.just(0.0), cg.logu(1e-5, 0.1, 3))
+            L.append("  -comp %s %s" % (c, fmt(draw(amt))))
         comps_all += comps
         if nonideal:
             form = draw(st.sampled_from(["Gugg_nondim", "Gugg_kJ", "Gugg_nondim", "tempk"]))
-            a0, a1 = draw(cg.uni(-1.0, 1.9, 3)), draw(st.one_of(st.just(0.0), cg.uni(-0.4, 0.4, 2)))
+            a0 = draw(cg.uni(-1.0, 1.9, 3))
+            a1 = draw(st.one_of(st.just(0.0), cg.uni(-0.4, -0.05, 2), cg.uni(0.05, 0.4, 2), cg.uni(0.05, 0.4, 2)))
             if form == "Gugg_kJ":
                 L.append("  -Gugg_kJ %s %s" % (fmt(float("%.4g" % (a0 * 2.479))), fmt(float("%.4g" % (a1 * 2.479)))))
             else:
